@@ -163,8 +163,20 @@ fn perturb(rng: &mut Rng, line: &str) -> Option<(String, &'static str)> {
     let (insert_ok, touch_ok) = protected_map(line);
     let bytes = line.as_bytes();
     let mut out: Vec<u8> = bytes.to_vec();
-    let kind = rng.below(4);
+    let kind = rng.below(5);
     match kind {
+        4 => {
+            // a long run of blanks at one position
+            let cands: Vec<usize> = (0..=bytes.len()).filter(|&p| insert_ok[p] && line.is_char_boundary(p)).collect();
+            if cands.is_empty() {
+                return None;
+            }
+            let p = rng.pick(&cands);
+            let n = rng.range(10, 45);
+            let run: Vec<u8> = (0..n).map(|_| if rng.chance(1, 4) { b'\t' } else { b' ' }).collect();
+            out.splice(p..p, run);
+            Some((String::from_utf8(out).ok()?, "insert-long-run"))
+        }
         0 => {
             let cands: Vec<usize> = (0..=bytes.len()).filter(|&p| insert_ok[p] && line.is_char_boundary(p)).collect();
             if cands.is_empty() {
